@@ -322,7 +322,9 @@ Proof.
     | fsplit; [ apply gen_stage_object_allowed; assumption
     | fsplit; [ apply gen_body_allowed; try assumption
     | fsplit; [ apply gen_inventory_allowed; assumption
-    | fsplit; [ apply gen_release_allowed; assumption | ]]]]]]).
+    | fsplit; [ apply gen_release_allowed; assumption | cbv beta iota; fsplit ]]]]]]).
+  (* the removal of named sources that are symbolic links: only mv has any *)
+  all: try (cbn [map]; apply Forall_nil).
   (* side conditions of gen_body_allowed and the source directories, kind by kind *)
   all: try (left; apply is_nil_eq; assumption).
   all: try (apply andb_true_iff in K2 as [K2a K2b]).
@@ -332,6 +334,10 @@ Proof.
   - (* MvExt: the source directories *)
     apply Forall_forall. intros x Hx. apply in_map_iff in Hx as [p [E Hin]]. subst x. unfold AL, must, may; cbn [snd].
     apply allowed_intro; [exact RUN|]. do 4 right. left. split; [exact K|]. cbn. apply (forallb_In _ _ _ FD Hin).
+  - (* MvExt: named sources that are symbolic links *)
+    apply Forall_forall. intros x Hx. apply in_map_iff in Hx as [p [E Hin]]. subst x. unfold AL, must, may; cbn [snd].
+    apply allowed_intro; [exact RUN|]. do 4 right. left. split; [exact K|]. cbn.
+    apply existsb_exists. exists p. split; [exact Hin | apply under_refl].
   - (* ResetAll *)
     apply andb_true_iff in K6 as [K6 K6c]. apply andb_true_iff in K6 as [K6a K6b].
     assert (U : uses_staging (o_kind o) = true) by (rewrite K; reflexivity).
